@@ -431,7 +431,7 @@ def precedence_safe(e):
     if k == 'bin':
         chain = _flat(e)
         operands, ops = chain[0::2], chain[1::2]
-        if any(o[0] == 'un' for o in operands[:-1]):
+        if any(o[0] == 'un' for o in operands[:-1]) or any(o[0] == 'pct' for o in operands[:-2]):
             return False
         if any(op in CMP for op in ops):
             if ops[0] not in CMP or any(op not in ARITH for op in ops[1:]):
@@ -624,7 +624,7 @@ def ev(e):
             return t[:n] if name == 'LEFT' else (t[len(t) - n:] if n <= len(t) else t)
         if name == 'MID':
             t, s, n = ev(args[0]), _int(ev(args[1])), _int(ev(args[2]))
-            if not isinstance(t, str) or s < 1 or n < 0:
+            if not isinstance(t, str) or s < 1 or n < 0 or s > len(t):
                 raise NoClause('text function domain')
             return t[s - 1:s - 1 + n]
         if name == 'CONCATENATE':
@@ -755,7 +755,7 @@ def canonical_args(name, n):
         return (['4', 'A1:B4', '2', 'FALSE'] + ['1'] * 40)[:n], 64
     if name == 'XMATCH':
         if n == 3:
-            return ['5', 'A1:A4', '-1'], 3
+            return ['4', 'A1:A4', '0'], 3
         if n == 2:
             return ['"ax"', 'C1:C4'], 1
         return (['"ax"', 'C1:C4', '0', '-1'] + ['1'] * 40)[:n], 4
@@ -769,6 +769,10 @@ class _NoVal:
 
 NOVAL = _NoVal()
 CANON = {}
+EXTRA_CANON = {'COUNTIFS(C1:C4,"a*",A1:A4,">1")': 2, 'SUMIF(C1:C4,"a?",B1:B4)': 176, 'COUNTIFS(C1:C4,"a*")': 3,
+               'SUMIF(C1:C4,"b",B1:B4)': 64, 'COUNTIFS(A1:A4,">1",B1:B4,">32")': 2, 'SUMIF(A1:A4,">1",B1:B4)': 224,
+               'VLOOKUP(4,A1:B4,2,FALSE)': 64, 'INDEX((A1:A4,B1:B4),2,1,2)': 32, 'DATE(2024,2,29)': datetime.datetime(2024, 2, 29),
+               'YEAR(D1)': 2024, 'COLUMN()': 26, 'SEARCH("c","abcabc")': 3, 'IFERROR(A2/A1,"e")': 2}
 
 
 def _build_canon():
@@ -784,6 +788,8 @@ def _build_canon():
             except RefError:
                 continue
             CANON[key] = (val,)
+    for k, v in EXTRA_CANON.items():
+        CANON[unparse(rparse('=' + k))] = (v,)
 
 
 _build_canon()
@@ -803,10 +809,10 @@ def write_book(path, formula, extra=None, at=FORMULA_AT, sheet=0):
 
 
 def classify(raised):
-    if raised.isa('E2PyclParserException'):
-        return ('reject', raised.cls)
+    # outcome classes of the property: value / library exception / foreign exception.  E2PyclParserException is what the
+    # statement names; the sibling E2PyclCellException (unknown sheet title, row 0) is also a refusal by the library.
     if raised.isa('E2PyclException'):
-        return ('libexc', raised.cls + ': ' + raised.msg[:80])
+        return ('reject', raised.cls)
     return ('foreign', raised.cls + ': ' + raised.msg[:80])
 
 
@@ -833,7 +839,7 @@ _SEQ = 0
 
 def observe(formula, tmpdir, mode='file', safety=False):
     """Outcome of translating a workbook whose S!Z1 holds `formula`:
-    ('reject', cls) | ('libexc', ..) | ('foreign', ..) | ('noload', ..) | ('evalerr', ..) | ('value', v)"""
+    ('reject', cls) | ('foreign', ..) | ('noload', ..) | ('evalerr', ..) | ('value', v)"""
     global _SEQ
     _SEQ += 1
     path = os.path.join(tmpdir, 'f%d_%d.xlsx' % (os.getpid(), _SEQ))
@@ -876,32 +882,81 @@ def show(v):
     return repr(v)
 
 
+def text_spans(text):
+    """[(start, end)] of the quoted texts (closing quote included; "" is an escaped quote)"""
+    spans, i, n = [], 0, len(text)
+    while i < n:
+        if text[i] == '"':
+            j = i + 1
+            while j < n:
+                if text[j] == '"':
+                    if text[j + 1:j + 2] == '"':
+                        j += 2
+                        continue
+                    break
+                j += 1
+            spans.append((i, min(j, n - 1)))
+            i = j + 1
+        else:
+            i += 1
+    return spans
+
+
+def mask_texts(text):
+    out = list(text)
+    for a, b in text_spans(text):
+        for i in range(a + 1, b):
+            out[i] = '_'
+    return ''.join(out)
+
+
 def swallow_feature(text):
     """root-cause tag: a quoted text is followed later by an un-escaped ? or * and a further quote"""
-    try:
-        toks = rlex(text)
-    except RefError:
-        toks = []
-    for t in toks:
-        if t[0] != 'str':
-            continue
-        p, e = t[2], t[3] - 1
+    for p, e in text_spans(text):
         for q in range(e + 1, len(text)):
             if text[q] == '"' and any(text[w] in '?*' and text[w - 1] != '~' for w in range(p + 1, q)):
                 return True
     return False
 
 
-def sheet_span_feature(text):
-    """root-cause tag: two quoted sheet prefixes, the later one on an area"""
-    return len(re.findall(r"'[^']*'!", text)) >= 2
+def _count_feature(e):
+    if e is None or not isinstance(e, tuple):
+        return False
+    k = e[0]
+    if k == 'call':
+        if e[1] == 'COUNT' and any(a is not None and a[0] not in ('num', 'str', 'bool', 'ref', 'range') for a in e[2]):
+            return True
+        return any(_count_feature(a) for a in e[2])
+    if k == 'bin':
+        return _count_feature(e[2]) or _count_feature(e[3])
+    if k == 'un':
+        return _count_feature(e[2])
+    if k in ('pct', 'par'):
+        return _count_feature(e[1])
+    if k == 'union':
+        return any(_count_feature(a) for a in e[1])
+    return False
 
 
 def root_tag(text):
+    """name of a known root cause whose trigger is present in the text (used for the failure key only, never for the verdict)"""
     if swallow_feature(text):
         return 'lexer.wildcard_after_quoted_text'
-    if sheet_span_feature(text):
+    m = mask_texts(text)
+    if re.search(r"'[^']*'!.*'[^']*'!\$?[A-Z]+\$?\d*:", m, re.S):
         return 'lexer.quoted_sheet_prefix_span'
+    if re.search(r'%[ \t\n]*["(\d.A-Za-z$\']', m):
+        return 'grammar.percent_as_binary_operator'
+    if re.search(r"(?<![A-Za-z0-9_$.'])!", m):
+        return 'lexer.empty_sheet_prefix'
+    for w in re.findall(r'(?<![A-Za-z0-9_.])\$?([A-Z]+)\$?\d+', m):
+        if col_num(w) > 16384:
+            return 'lexer.column_beyond_XFD'
+    try:
+        if _count_feature(_P(rlex(text)).parse()):
+            return 'translator.COUNT_non_simple_argument'
+    except (RefError, RecursionError):
+        pass
     return None
 
 
@@ -913,7 +968,7 @@ def judge(formula, out, ref=None):
     if ref[0] == 'invalid':
         if kind == 'reject':
             return None
-        if kind in ('foreign', 'libexc'):
+        if kind == 'foreign':
             return ('C05.%s' % (tag or 'malformed.' + ref[1] + '.foreign_exception'),
                     f'{formula!r} is not a formula ({ref[1]}) -> {out[1]}, expected E2PyclParserException')
         m = re.match(r'arity_(\w+)', ref[1])
@@ -922,7 +977,7 @@ def judge(formula, out, ref=None):
                 f'expected E2PyclParserException' + (' [argument list outside the grammar]' if m else ''))
     if kind == 'reject':
         return None
-    if kind in ('foreign', 'noload', 'libexc'):
+    if kind in ('foreign', 'noload'):
         return ('C05.%s' % (tag or 'wellformed.' + kind),
                 f'{formula!r} is a formula -> {kind} {out[1]}; expected a loadable class or E2PyclParserException')
     if ref[0] == 'noclause':
@@ -1007,7 +1062,11 @@ def _pool_map(fn, jobs, procs=16):
 
 def _dedupe(fails, limit=25):
     seen, out = set(), []
-    for f in sorted(fails, key=lambda f: (f['key'], len(f['what']), f['what'])):
+    def size(f):
+        r = f.get('replay') or {}
+        c = r.get('case') or {}
+        return c.get('n') or len(r.get('formula') or r.get('variant') or '') or len(f['what'])
+    for f in sorted(fails, key=lambda f: (f['key'], size(f), f['what'])):
         if f['key'] not in seen:
             seen.add(f['key'])
             out.append(f)
@@ -1056,6 +1115,8 @@ def arity_jobs(tier, rng):
                 call = name + '(' + body + ')'
                 valid = SPEC[name](n)
                 hows = ['bare', 'if_arg', 'paren'] if valid else ['bare', 'sum_right', 'if_arg', 'sum_left', 'nested_arg']
+                if tier != 'thorough':
+                    hows = hows[:2] if valid else hows[:3]
                 if n > 13:
                     hows = hows[:2]
                 for how in hows:
@@ -1096,6 +1157,8 @@ BASES = [
     '=COUNTIFS(A1:A4,">1",B1:B4,">32")', '=SUMIF(A1:A4,">1",B1:B4)', '=VLOOKUP(4,A1:B4,2,FALSE)', '=INDEX((A1:A4,B1:B4),2,1,2)',
     '=MIN(8,4,2)', '=IFERROR(A2/A1,"e")', '=DATE(2024,2,29)', '=TODAY()', '=COLUMN()', '=YEAR(D1)', '=1.5+2.25', '=1e3+1',
     '=SUM(1,IF(A1>0,2,4),8)', '=((1+2))', '=IF(C1="ax","a,b","c;d")', '=IF(C3="b","it""s","n")', '=SEARCH("c","abcabc")',
+    '=COUNTIFS(C1:C4,"a*",A1:A4,">1")', '=SUMIF(C1:C4,"a?",B1:B4)', '=IF(C1="ax",A1*2,"none")', '=IF(C3="b","q?","n")&"!"',
+    '=CONCATENATE("a*","b")', "=SUM('T 2'!A1,'T 2'!A1:A2)", '=COUNT(1,2,4)', '="a  b"&" c"', '="p\nq"&"\tr "',
 ]
 APPEND1 = [')', '(', '+', '-', '*', '/', '&', '%', ',', ';', '=', '<', '>', '<>', '<=', '>=', '1', '2.5', '"x"', '""', '"', 'A1', 'B2',
            'A1:B2', 'TRUE', 'SUM', 'IF', 'SUM(1)', '()', '(1)', '%%', '!', ':', '.', "'", '#', '$', 'x', 'e1']
@@ -1118,8 +1181,10 @@ def mutation_jobs(tier, rng):
         if f not in seen and f.startswith('='):
             seen.add(f)
             jobs.append((f, mode, False))
-    bases = BASES if tier == 'thorough' else BASES
-    for b in bases:
+    thorough = tier == 'thorough'
+    pair_alpha = APPEND2 if thorough else [')', '(', '+', ',', '%', '1', '"x"', 'A1']
+    ins_alpha = APPEND1 if thorough else [')', '(', '+', '*', ',', '%', '=', '1', '"x"', 'A1']
+    for b in BASES:
         add(b)
         add(b, 'entry')
         toks = tok_texts(b)
@@ -1127,11 +1192,14 @@ def mutation_jobs(tier, rng):
         for a in APPEND1:
             add(b + a)
             add(b + ' ' + a)
-        for a1 in APPEND2:
-            for a2 in APPEND2:
+        for a1 in pair_alpha:
+            for a2 in pair_alpha:
                 add(b + a1 + a2)
-                if tier == 'thorough':
+                if thorough:
                     add(b + ' ' + a1 + ' ' + a2)
+        if thorough:
+            for a in itertools.product(APPEND2[:8], repeat=3):
+                add(b + ''.join(a))
         # delete / duplicate / swap at every position
         for i in range(1, len(toks)):
             add(render(toks[:i] + toks[i + 1:]))
@@ -1139,18 +1207,17 @@ def mutation_jobs(tier, rng):
             add(render(toks[:i + 1] + toks[i:], ' '))
             if i + 1 < len(toks):
                 add(render(toks[:i] + [toks[i + 1], toks[i]] + toks[i + 2:]))
-        # truncations (every proper prefix) and every suffix dropped from the front
+        # truncations: every proper prefix
         for i in range(1, len(toks)):
             add(render(toks[:i]))
         # insert one token at every position
-        ins = APPEND1 if (tier == 'thorough' or len(toks) <= 8) else APPEND2
         for i in range(1, len(toks)):
-            for a in ins:
+            for a in ins_alpha:
                 add(render(toks[:i] + [a] + toks[i:]))
-                if tier == 'thorough':
+                if thorough:
                     add(render(toks[:i] + [a] + toks[i:], ' '))
     # seeded multi-mutations
-    n_random = 40000 if tier == 'thorough' else 3000
+    n_random = 30000 if tier == 'thorough' else 1500
     alphabet = APPEND1 + ['3', '4', '"y"', 'B1', 'MAX', 'LEFT', 'AND', 'C1', '0.5']
     for _ in range(n_random):
         toks = tok_texts(rng.choice(BASES))
@@ -1178,8 +1245,9 @@ def check_mutations(tier, rng):
     return {'name': 'C05.monitor.token_mutations',
             'bound': f'{len(BASES)} well-formed base formulas (every token kind, {len(SPEC)}-function grammar, nested calls, % and signs, '
                      f'sheet prefixes, texts containing separators and doubled quotes) x [one trailing token from {len(APPEND1)} glued / after a blank; '
-                     f'two trailing tokens from {len(APPEND2)}^2; every single deletion, duplication, adjacent swap, proper prefix; '
-                     f'every single insertion at every position] + {40000 if tier == "thorough" else 3000} seeded 1..4-step mutations',
+                     f'two trailing tokens from {14 if tier == "thorough" else 8}^2' + (', three from 8^3' if tier == 'thorough' else '') +
+                     '; every single deletion, duplication, adjacent swap, proper prefix; every single insertion of one of '
+                     f'{len(APPEND1) if tier == "thorough" else 10} tokens at every position] + {30000 if tier == "thorough" else 1500} seeded 1..4-step mutations',
             'rule': 'one evaluation = one distinct cell text; the reference lexer/parser reads the COMPLETE text: not a formula -> must raise '
                     'E2PyclParserException; formula -> exception or the value of the complete text (value clause only where the reference '
                     'evaluator defines it and precedence is not involved).  classes: ' + ', '.join(f'{k}:{v}' for k, v in sorted(st.items())),
@@ -1418,6 +1486,27 @@ def _ctx_case(case):
             ok = (out[0] == 'reject') if case.get('tail') else (out[0] == 'reject' or (out[0] == 'value' and out[1] == n))
             return ok, f'=1+1+...+1 ({n} terms, {len(f)} characters){" + " + repr(case["tail"]) if case.get("tail") else ""} -> {out[0]} ' \
                        f'{show(out[1]) if out[0] == "value" else out[1]}; expected {exp}' + ('' if case.get('tail') else ' or E2PyclParserException')
+        if kind in ('nest', 'parens', 'longtext'):
+            n = case['n']
+            if kind == 'nest':
+                f = '1'
+                for _ in range(n):
+                    f = 'SUM(1,' + f + ')'
+                f, exp = '=' + f, n + 1
+            elif kind == 'parens':
+                f, exp = '=' + '(' * n + '1+2' + ')' * n, 3
+            else:
+                f, exp = '="' + 'a' * n + '"&"b"', 'a' * n + 'b'
+            f += case.get('tail', '')
+            if case.get('cut'):
+                f = f[:-case['cut']]
+            write_book(path, f)
+            t = lib.translate(path, entry=(0, 'Z', '1') if case.get('entry') else None)
+            out = classify(t) if isinstance(t, codec.Raised) else observe_text(t)
+            malformed = bool(case.get('tail') or case.get('cut'))
+            ok = out[0] == 'reject' or (not malformed and out[0] == 'value' and out[1] == exp)
+            return ok, f'{f[:40]!r}...{f[-12:]!r} ({kind} {n}, {len(f)} characters' + (', malformed' if malformed else '') + f') -> {out[0]} ' \
+                       f'{show(out[1])[:60] if out[0] == "value" else out[1]}; expected ' + ('E2PyclParserException' if malformed else f'{show(exp)[:20]} or E2PyclParserException')
     return True, 'unknown case'
 
 
@@ -1451,10 +1540,16 @@ def ctx_cases(tier):
         cases.append({'kind': 'twosheets', 'bad': bad, 'key': 'C05.context.two_sheets'})
     for text in ['=SUM(A1:A2)', '=SUM(A1:A2) ', ' =SUM(A1:A2)', '=SUM(A1:A2) 4', '=SUM(A1:A2))', '=SUM(A1:A2)+', '=A1+A2\n', '=1 2']:
         cases.append({'kind': 'array', 'text': text, 'key': 'C05.context.array_formula'})
-    for n in (20, 60, 150, 300) + ((600, 1000, 2500, 4000) if tier == 'thorough' else (1000,)):
+    for n in (20, 60, 150, 300, 330, 360, 400, 500) + ((700, 1000, 2500, 4000) if tier == 'thorough' else (1000,)):
         cases.append({'kind': 'long', 'n': n, 'key': 'C05.long_formula'})
         cases.append({'kind': 'long', 'n': n, 'tail': ')', 'key': 'C05.long_formula'})
         cases.append({'kind': 'long', 'n': n, 'tail': ' 1', 'entry': True, 'key': 'C05.long_formula'})
+    for kind, ns in (('nest', (2, 5, 10, 20, 40, 64)), ('parens', (2, 5, 10, 30, 64)), ('longtext', (10, 51, 300, 5000))):
+        for n in ns:
+            cases.append({'kind': kind, 'n': n, 'key': 'C05.deep_formula.' + kind})
+            cases.append({'kind': kind, 'n': n, 'tail': ')', 'entry': True, 'key': 'C05.deep_formula.' + kind})
+            cases.append({'kind': kind, 'n': n, 'tail': ' 1', 'key': 'C05.deep_formula.' + kind})
+            cases.append({'kind': kind, 'n': n, 'cut': 1, 'key': 'C05.deep_formula.' + kind})
     return cases
 
 
@@ -1468,7 +1563,8 @@ def check_contexts(tier, rng):
                      + '), the second sheet; read from a well-formed entry cell directly / through areas / whole columns / criteria ranges / '
                        'the untaken IF branch / another sheet; one Parser object re-used over good, malformed, good workbooks (with and '
                        'without entry cell, get_translation called once or twice); same text on two sheets; array-formula cells; chains '
-                       '=1+1+...+1 of 20..' + ('4000' if tier == 'thorough' else '1000') + ' terms with and without a trailing token',
+                       '=1+1+...+1 of 20..' + ('4000' if tier == 'thorough' else '1000') + ' terms, SUM nested 2..64 deep, brackets '
+                       'nested 2..64 deep, text literals of 10..5000 characters, each complete, with one trailing token, and cut by one character',
             'rule': 'one evaluation = one scenario; a malformed text that is translated (whole file, or reachable from the entry cell) must '
                     'raise E2PyclParserException in every place and API order, a well-formed one must keep its value; a re-used Parser '
                     'must not hand out the previous translation after a rejection',
@@ -1509,7 +1605,7 @@ def gen_text_expr(rng):
 
 
 def gen_jobs(tier, rng):
-    n = 30000 if tier == 'thorough' else 2500
+    n = 30000 if tier == 'thorough' else 2000
     seen, jobs = set(), []
     tails = [')', ' 1', '+', ',', '%%', ' A1', '(', ',1', ')+1', ' "x"', ';', '*', '&', '=', '""']
     while len(jobs) < n:
